@@ -799,7 +799,7 @@ func init() {
 		Level: "exploration",
 		Rule: "reference sets of 5-300 sequences over a,c,g,t (families of related sequences, near-duplicates at 0-6 edits, exact duplicates, lengths within +-30 %, unrelated sequences, 0-3 constructed tie groups: a query, a longer reference at distance k (insertions / extra end letters) and references at distance k, k-1, k+1 through spread substitutions / deletions sharing few 4-mers; for obitag2 also sets of >1001 near-identical references; for the index, in one case out of two, a constellation of a copy of the indexed sequence and two much longer references on the same ancestor taxon plus a reference at 1-2 substitutions on the parent of that ancestor), random taxonomies of 1-40 nodes (4 shapes) assigned to the references at random or correlated with the sequence families; queries = references with 0-8 edits, unrelated sequences, tie-group queries. " +
 			"Every answer of the real obitag.FindClosests / obitag2.FindClosests / obirefidx.IndexSequence / obitag.Identify (alone and from 8 goroutines) is compared with a brute force over ALL references using the harness's own full-matrix LCS DP and parent-array LCA. " +
-			"Added later: sub-check assign through obitag.CLIAssignTaxonomy with references of unknown taxid at every position, low-complexity amplicons (a common repeat of 260-560 nt), the >1001-reference cases also for obitag. " +
+			"Added later: sub-check assign through obitag.CLIAssignTaxonomy with references of unknown taxid at every position, low-complexity amplicons (a common repeat of 260-560 nt), the >1001-reference cases also for obitag. rearranged amplicons (a circular permutation of the query, which shares all its 4-mers and is examined first, next to in-order variants whose true distance lies just below), refidx-e2e: the obirefidx command on databases whose records already carry an index computed on an older, smaller reference set. " +
 			"distinct_nontrivial = distinct (database size class, best distance, number of tied best references class, tied references shorter/longer than the query, query kind) of queries with a tie or a non-zero best distance (closest, closest2); (size class, number of index entries >= 2, depth of the taxon) (index); (ties, distance, distinct taxa among the best >= 2 or ties, depth of the assigned taxon) (identify)",
 		Assume: []string{
 			"sequences are over a,c,g,t, at least 8 letters (the 4-mer bound does not hold for ambiguity codes; Encode4mer needs >= 4 letters)",
@@ -814,7 +814,9 @@ func init() {
 			{Name: "closest2", N: core.Const(150, 3000), Run: runClosestWith(obitag2.FindClosests, true)},
 			{Name: "closest", N: core.Const(300, 6000), Run: runClosestWith(obitag.FindClosests, false)},
 			{Name: "assign", N: core.Const(60, 600), Run: runAssign},
+			{Name: "refidx-e2e", N: core.Const(24, 240), Run: runRefidxE2E},
 		},
+		Cmds:          []string{"obirefidx"},
 		MinNontrivial: 200,
 		RaceFiles:     anchored,
 		Post: func(tier string, counters map[string]int64) (inconclusive []string) {
